@@ -33,6 +33,8 @@ PATTERNS = {
     'CHFClBr': (['C', 'H', 'F', 'Cl', 'Br'], [(0, 0, 0), (.63, .63, .63), (-.8, -.8, .8), (-1.0, 1.0, -1.0), (1.1, -1.1, -1.1)]),
     'CHHB': (['C', 'H', 'H', 'B'], [(0, 0, 0), (1, 0, 0), (0, 2, 0), (0, 0, 1)]),
     'CNHH': (['C', 'N', 'H', 'H'], [(0, 0, 0), (1.3, 0, 0), (-0.5, 0.9, 0.3), (-0.5, -0.9, 0.3)]),      # mirror plane but no rotation symmetry: the two H can be swapped by a reflection only
+    'HCNy': (['H', 'C', 'N'], [(0, 0, 0), (0, 1.06, 0), (0, 2.22, 0)]),                                   # asymmetric, search axis exactly along y
+    'CNOz': (['C', 'N', 'O'], [(0, 0, 0), (0.9, 0.3, 0.8), (0, 0, 2.0)]),                                  # asymmetric, search axis exactly along z
     'frag7': (['C', 'C', 'O', 'O', 'H', 'N', 'F'], [(0, 0, 0), (1.4, 0.2, 0), (2.0, 1.3, 0.3), (2.1, -0.9, -0.4), (-0.6, 0.9, 0.2), (-0.7, -1.0, 0.5), (0.1, 0.2, -1.4)]),
 }
 PATTERN_NAMES = list(PATTERNS)
